@@ -63,7 +63,7 @@ def new_run():
          "explored",
          "solo outcome of each call is computed unscheduled on a fresh build "
          "of the same scenario and must be reproducible (checked twice)",
-         "2-3 threads, frames <= 5 rows, 9 scenario families"])
+         "2-3 threads, frames <= 5 rows, 14 scenario families"])
 
 
 # ------------------------------------------------------------------ helpers
